@@ -34,7 +34,11 @@ SCRATCH_B = SCRATCH_B + ['\ufeff# Title\n', '\ufeff> q\n', '\ufeff- i\n', '\ufef
 LOOKAHEAD_A = ['text\n| a |\n|---|\n', 'text\n| a | b |\n|---|:-:|\n', 'text\na | b\n--|--\n', '> text\n| a |\n|---|\n', '> text\n> | a |\n> |---|\n',
                'text\n| a |\n|---|\n| 1 |\n', 'one\ntwo\n| a |\n|---|\n', 'text\n| a |\n|---|  \n', '# h\ntext\n| a |\n| - |\n', 'text\n===\n', 'text\nmore\n---\n',
                '> text\n> ===\n', 'text\n| a |\n', 'text\n|---|\n', '- item\n\ntext\n| a |\n|---|\n', 'text\n***\n', 'text\n# h\n', 'text\n> q\n']
-SCRATCH_A = SCRATCH_A + LOOKAHEAD_A + [l + '\npara\n' for l in LIST_SHAPES] + ['> ' + l.replace('\n', '\n> ')[:-2] for l in LIST_SHAPES[:6]]
+# A's last line ends in white space that is kept somewhere in the tree (the text of a thematic break, code in a quote): what the
+# parser does with the end of its *input* must not differ from what it does with the end of a *line*
+TRAILING_WS_A = ['***  \n', '- - - - \n', 'text\n\n- - -\t\n', '> ```\n> code  \n', '> ```\n> code\t\n', '>     code  \n', '> ***  \n', '> > ~~~\n> > x \n', '# h  \n', 'text  \n',
+                 'text\\\n', '> a  \n', 'a | b\n--|--\nc | d  \n', '_ _ _ \n', '>  \n', '> ```\n>  \n']
+SCRATCH_A = SCRATCH_A + LOOKAHEAD_A + TRAILING_WS_A + [l + '\npara\n' for l in LIST_SHAPES] + ['> ' + l.replace('\n', '\n> ')[:-2] for l in LIST_SHAPES[:6]]
 
 
 def parse(text, ts):
